@@ -131,7 +131,7 @@ def verify_modules(modnames, tier='quick', prop=None, only=None):
                                   loops_with_invariant=sorted(ct.loops), gen_s=round(time.time() - t0, 3)))
             # vacuity: the precondition (with type invariants and axioms) must be satisfiable
             for cname, hyps in ex.covers:
-                cover_jobs.append(('%s::cover[%s]' % (qual, cname), 0, to_smt2(list(ex.hyp_axioms) + list(AT_AXIOMS) + hyps, z3.BoolVal(False)), 5000, False))
+                cover_jobs.append(('%s::cover[%s]' % (qual, cname), 0, to_smt2(list(ex.hyp_axioms) + hyps, z3.BoolVal(False)), 5000, False))
             for name, o in obls.items():
                 obl_meta[name] = dict(name=name, function=qual, kind=o.kind, clause=o.label, clause_text=o.clause_text,
                                       nqueries=len(o.queries), smt2_sample=None)
